@@ -12,6 +12,7 @@ import ast
 from typing import Dict, List, Optional
 
 from ..index import AnalysisError, call_name, norm, norm1
+from ..sem import Sem, inline_private_helpers, reachable_helpers
 from .common import Frag, calls, const_of, enclosing, enclosing_all, fctx, in_body, is_name, kwarg, method_calls, pmatch, stmts
 
 LEVEL = "other"
@@ -31,55 +32,100 @@ GT = "wannierberri/grid/grid_tetra.py"
 PS = "wannierberri/symmetry/point_symmetry.py"
 
 
-def _divide_rule(rule, f, child_cls: str) -> None:
-    cfg, du, pm = fctx(f)
+def _iter_space(S: Sem, node: ast.AST):
+    """[(target text, iterable node)] of the loops / comprehension generators around `node`, outer → inner."""
+    out = []
+    x = node
+    chain = []
+    while x in S.pm:
+        x = S.pm[x]
+        chain.append(x)
+    for p_ in reversed(chain):
+        if isinstance(p_, ast.For):
+            out.append((norm(p_.target), p_.iter, p_))
+        elif isinstance(p_, (ast.ListComp, ast.GeneratorExp)):
+            for ge in p_.generators:
+                out.append((norm(ge.target), ge.iter, p_))
+    return out
+
+
+def _count_poly(S: Sem, iters, at: int):
+    """Number of iterations as a Rat over symbols X0, X1, X2 (elements of the divisor vector) / N (scalar divisor)."""
+    from ..algebra import Rat, to_rat
+
+    def env(x):
+        if isinstance(x, ast.Subscript) and isinstance(x.slice, ast.Constant) and isinstance(x.slice.value, int) and isinstance(x.value, ast.Name):
+            return Rat.sym(f"{x.value.id}_{x.slice.value}")
+        if isinstance(x, ast.Name):
+            return Rat.sym(x.id)
+        if isinstance(x, ast.Call) and call_name(x) in ("np.prod", "numpy.prod") and len(x.args) == 1 and isinstance(x.args[0], ast.Name):
+            v = x.args[0].id
+            return Rat.sym(f"{v}_0") * Rat.sym(f"{v}_1") * Rat.sym(f"{v}_2")
+        if isinstance(x, ast.Call) and isinstance(x.func, ast.Attribute) and x.func.attr == "prod" and isinstance(x.func.value, ast.Name) and not x.args:
+            v = x.func.value.id
+            return Rat.sym(f"{v}_0") * Rat.sym(f"{v}_1") * Rat.sym(f"{v}_2")
+        return None
+    total = Rat.const(1)
+    for tg, it, _ in iters:
+        if isinstance(it, ast.Call) and call_name(it) == "range" and len(it.args) == 1:
+            total = total * to_rat(it.args[0], env)
+        elif isinstance(it, ast.Call) and call_name(it) in ("np.ndindex", "numpy.ndindex") and len(it.args) == 1 and isinstance(it.args[0], ast.Starred) \
+                and isinstance(it.args[0].value, ast.Name):
+            v = it.args[0].value.id
+            total = total * Rat.sym(f"{v}_0") * Rat.sym(f"{v}_1") * Rat.sym(f"{v}_2")
+        else:
+            raise AnalysisError(f"child loop is neither range(n) nor np.ndindex(*n): {norm1(it)}")
+    return total, env
+
+
+def _divide_rule(rule, f, child_cls: str, idx=None) -> None:
+    from ..algebra import Rat, to_rat
+    S = Sem(idx, f)
+    cfg, du, pm = S.cfg, S.du, S.pm
     rule.instance(f.short)
     ctor = [c for c in ast.walk(f.node) if isinstance(c, ast.Call) and call_name(c) == child_cls]
     if len(ctor) != 1:
         raise AnalysisError(f"{f.short}: expected one {child_cls}(…) child constructor")
     c = ctor[0]
-    fac = next((k.value for k in c.keywords if k.arg == "factor"), None)
+    cst = enclosing(pm, c, ast.stmt)
+    at = cfg.node(cst)
+    fac = kwarg(c, "factor")
     if fac is None:
         rule.violation(f, c, "children are created without a factor (default weight 1 each)", stmt="factor missing")
         return
-    facv = du.resolve_local(fac, du.node_of_expr(c))
-    loops = [l for l in reversed(enclosing_all(pm, c, ast.For))]
-    counts = []
-    for l in loops:
-        if isinstance(l.iter, ast.Call) and call_name(l.iter) == "range" and len(l.iter.args) == 1:
-            counts.append(norm(l.iter.args[0]))
-        else:
-            raise AnalysisError(f"{f.short}: child loop is not range(n): {norm1(l.iter)}")
+    facv = S.resolve(fac, at)
+    iters = _iter_space(S, c)
+    try:
+        count, env = _count_poly(S, iters, at)
+    except AnalysisError as e_:
+        raise AnalysisError(f"{f.short}: {e_}")
     ok = False
     div = None
     if isinstance(facv, ast.BinOp) and isinstance(facv.op, ast.Div) and norm(facv.left) == "self.factor":
-        div = norm(facv.right).replace(" ", "")
-        if len(counts) == 1:
-            ok = div == counts[0].replace(" ", "")
-        elif len(counts) == 3:
-            base = counts[0].split("[")[0]
-            ok = counts == [f"{base}[0]", f"{base}[1]", f"{base}[2]"] and div in (f"np.prod({base})", f"{base}.prod()",
-                                                                                     f"{base}[0]*{base}[1]*{base}[2]")
-    rule.check(ok, f"children: {len(counts)}-fold loop over {counts}, each with factor self.factor / {div}", f, c,
-               f"the children created by the loop nest over {counts} get factor `{norm1(facv)}`: their weights do not add up to "
+        div = norm(facv.right)
+        try:
+            ok = to_rat(facv.right, env).equals(count)
+        except AnalysisError:
+            ok = False
+    rule.check(ok, f"children: iteration space {[norm1(it, 30) for _, it, _ in iters]}, each with factor self.factor / {div}", f, c,
+               f"the children created over {[norm1(it, 40) for _, it, _ in iters]} get factor `{norm1(facv)}`: their weights do not add up to "
                f"the parent's weight (total weight changes at every refinement)")
     zero = [cfg.node(enclosing(pm, z, ast.stmt)) for z in method_calls(f.node, "set_factor")
             if is_name(z.func.value, "self") and z.args and norm(z.args[0]) == "0"]
     zero += [cfg.node(s) for s in stmts(f.node) if isinstance(s, ast.Assign) and norm(s.targets[0]) == "self.factor" and norm(s.value) in ("0", "0.0")]
-    cnode = cfg.node(enclosing(pm, c, ast.stmt))
+    cnode = cfg.node(cst)
     okz = bool(zero) and cfg.must_pass(cnode, zero)
-    rule.check(okz, "the parent's weight is set to 0 on every path after its children were created", f, enclosing(pm, c, ast.stmt),
+    rule.check(okz, "the parent's weight is set to 0 on every path after its children were created", f, cst,
                f"{f.qualname} creates children carrying the parent's weight but does not zero the parent (`self.set_factor(0)`) on every "
                f"path to the return: the refined cell keeps its full weight next to its sub-cells and is counted twice",
                path=cfg.describe_path(cfg.path_avoiding(cnode, cfg.exit, zero) or []))
     rets = [s for s in stmts(f.node) if isinstance(s, ast.Return) and s.value is not None]
-    tgt = None
-    ap = enclosing(pm, c, ast.Call)
-    st = enclosing(pm, c, ast.stmt)
     lst = None
-    for a in ast.walk(st):
+    for a in ast.walk(cst):
         if isinstance(a, ast.Call) and isinstance(a.func, ast.Attribute) and a.func.attr == "append" and any(x is c for x in ast.walk(a)):
             lst = norm(a.func.value)
+    if lst is None and isinstance(cst, ast.Assign) and isinstance(cst.targets[0], ast.Name) and isinstance(cst.value, (ast.ListComp,)) and cst.value.elt is c:
+        lst = cst.targets[0].id
     rule.check(lst is not None and all(norm(r.value) == lst for r in rets), "all children are returned", f, rets[0] if rets else f.node,
                f"divide() collects its children in `{lst}` but returns `{norm1(rets[0].value) if rets else None}`")
 
@@ -91,73 +137,111 @@ def run(ctx) -> None:
     r1 = ctx.rule("R06.1", "weight is absorbed before a K-point is dropped", min_instances=2)
     g = idx.function(GR, "Grid.get_K_list")
     cfg, du, pm = fctx(g)
-    drops = [s for s in stmts(g.node) if isinstance(s, ast.Assign) and norm(s.value) == "None" and isinstance(s.targets[0], ast.Subscript)
-             and "K_list" in norm(s.targets[0])]
-    if len(drops) != 1:
-        raise AnalysisError(f"Grid.get_K_list: expected one `K_list[…] = None`, found {len(drops)}")
-    d = drops[0]
-    r1.instance(f"{g.short}: {norm1(d)}")
-    blk = pm[d].body if d in getattr(pm[d], "body", []) else pm[d].orelse
+    GSem = Sem(idx, g)
+    sites = []
+    for h in [g] + reachable_helpers(idx, g):
+        for s_ in stmts(h.node):
+            if isinstance(s_, ast.Assign) and const_of(s_.value) is None and isinstance(s_.value, ast.Constant) and isinstance(s_.targets[0], ast.Subscript) \
+                    and isinstance(s_.targets[0].value, ast.Subscript) and isinstance(s_.targets[0].value.value, ast.Subscript):
+                sites.append((h, s_))
+    if len(sites) != 1:
+        raise AnalysisError(f"Grid.get_K_list: expected one `K_list[a][b][c] = None` (in it or its private helpers), found {len(sites)}")
+    h, d = sites[0]
+    HS = Sem(idx, h)
+    HS._caller_done = True     # reason in terms of the helper's own parameters
+    hpm = HS.pm
+    r1.instance(f"{h.short}: {norm1(d)}")
+    blk = next(b_ for b_ in (getattr(hpm[d], "body", []), getattr(hpm[d], "orelse", [])) if d in b_)
     i = blk.index(d)
     prev = blk[i - 1] if i > 0 else None
     okp = isinstance(prev, ast.Expr) and isinstance(prev.value, ast.Call) and isinstance(prev.value.func, ast.Attribute) \
         and prev.value.func.attr == "absorb" and prev.value.args and norm(prev.value.args[0]) == norm(d.targets[0])
-    r1.check(okp, "the dropped grid point is the one just absorbed", g, d,
+    r1.check(okp, "the dropped grid point is the one just absorbed", h, d,
              f"`{norm1(d)}` removes a grid point whose weight was not transferred by an immediately preceding `.absorb({norm1(d.targets[0])})`: "
              f"the weights of the irreducible points no longer sum to one")
-    G = Frag(g)
-    kl = norm(d.targets[0].value.value.value) if isinstance(d.targets[0].value, ast.Subscript) and isinstance(d.targets[0].value.value, ast.Subscript) else None
-    sloop = enclosing(pm, d, ast.For)
-    kvar = sloop.target.id if sloop is not None and isinstance(sloop.target, ast.Name) else None
-    xyz_loops = [l for l in enclosing_all(pm, d, ast.For) if l is not sloop]
-    lv = {}
-    for l in xyz_loops:
-        m_ = pmatch(l.iter, "range(self.div[AX])", {"AX"})
-        if m_ and m_[0][0] is l.iter and isinstance(l.target, ast.Name):
-            lv[int(m_[0][1]["AX"])] = l.target.id
-    r1.expect(kl is not None and kvar is not None and sorted(lv) == [0, 1, 2], "symmetry-reduction loop nest located", g, d,
-              "Grid.get_K_list: the x/y/z loops over range(self.div[i]) and the loop over the star around the drop were not recognised")
-    if kl is None or kvar is None or sorted(lv) != [0, 1, 2]:
-        return
-    xv, yv, zv = lv[0], lv[1], lv[2]
-    r1.check(norm(d.targets[0]).replace(" ", "") == f"{kl}[{kvar}[0]][{kvar}[1]][{kvar}[2]]", "the dropped point is addressed by the image's grid coordinates (x, y, z order)", g, d,
-             f"`{norm1(d.targets[0])}` does not address the image {kvar} as {kl}[{kvar}[0]][{kvar}[1]][{kvar}[2]]")
-    guard = enclosing(pm, d, ast.If)
-    r1.check(guard is not None and norm(guard.test).replace(" ", "") in (f"{kvar}!=({xv},{yv},{zv})", f"({xv},{yv},{zv})!={kvar}") and in_body(guard.body, d),
-             "a point never absorbs / drops itself", g, guard or d, "the self-image of a K-point is not excluded: it would absorb itself and be dropped")
+    at_d = HS.cfg.node(d)
+
+    def coords(e):
+        """(list text, [i0, i1, i2] resolved index texts) of X[i0][i1][i2]"""
+        r_ = HS.resolve(e, at_d)
+        if isinstance(r_, ast.Subscript) and isinstance(r_.value, ast.Subscript) and isinstance(r_.value.value, ast.Subscript):
+            return norm(r_.value.value.value), [norm(r_.value.value.slice), norm(r_.value.slice), norm(r_.slice)]
+        return None, None
+
+    def as_tuple_base(ix):
+        """T if ix = [T[0], T[1], T[2]], else the tuple text (a, b, c)"""
+        if ix and all(x.endswith(f"[{k}]") for k, x in enumerate(ix)) and len({x[:-3] for x in ix}) == 1:
+            return ix[0][:-3]
+        return "(" + ", ".join(ix) + ")" if ix else None
+    kl, img = coords(d.targets[0])
     kpv = norm(prev.value.func.value) if okp else None
-    kd = du.single_def(kpv, cfg.node(d)) if kpv and kpv.isidentifier() else None
-    live = [x for x in enclosing_all(pm, d, ast.If) if kpv and norm(x.test) in (f"{kpv} is not None",)]
-    r1.check(kd is not None and norm(kd.value).replace(" ", "") == f"{kl}[{xv}][{yv}][{zv}]" and bool(live),
-             "the absorbing point is the live grid point (x, y, z) itself", g, kd.stmt if kd else d,
-             "the absorbing K-point is not the (still present) grid point whose star is being removed")
-    sd = du.single_def(norm(sloop.iter), cfg.node(sloop)) if isinstance(sloop.iter, ast.Name) else None
-    sv = sd.value if sd is not None else sloop.iter
-    star_ok = bool(pmatch(sv, f"[tuple(K_) for K_ in np.array(np.round({kpv}.star * self.div), dtype=int) % self.div]", {"K_"})
-                   or pmatch(sv, f"[tuple(K_) for K_ in np.round({kpv}.star * self.div).astype(int) % self.div]", {"K_"})
-                   or pmatch(sv, f"[tuple(K_) for K_ in np.rint({kpv}.star * self.div).astype(int) % self.div]", {"K_"}))
-    r1.check(star_ok, "images are the star of the point, in integer grid coordinates folded onto the grid", g, sd.stmt if sd else sloop,
+    own_l, own = coords(ast.Name(id=kpv, ctx=ast.Load())) if kpv and kpv.isidentifier() else (None, None)
+    r1.expect(kl is not None and own is not None and own_l == kl, "absorbing point and dropped image are elements of the same nested grid list", h, d,
+              "get_K_list: could not express the absorbing K-point and the dropped image as elements X[a][b][c] of one list")
+    if kl is None or own is None:
+        return
+    conds = HS.conditions(d)
+    T, O = as_tuple_base(img), as_tuple_base(own)
+    self_excl = any(pol is False and txt in (f"{T} == {O}", f"{O} == {T}") for txt, pol, _ in conds)
+    r1.check(self_excl, "a point never absorbs / drops itself", h, d, f"the self-image of a K-point is not excluded (no test `{T} != {O}` guards the drop): it would absorb itself and be dropped")
+    live = any(pol is False and txt.endswith(" is None") and HS.rnorm(ast.parse(txt[:-8], mode="eval").body, at_d) == f"{kl}[{own[0]}][{own[1]}][{own[2]}]" for txt, pol, _ in conds) or \
+        any(pol is False and txt == f"{kl}[{own[0]}][{own[1]}][{own[2]}] is None" for txt, pol, _ in conds)
+    r1.check(live, "the absorbing point is a grid point that is still present", h, d, "the absorbing K-point may already have been dropped (no `is not None` test)")
+    sloop = enclosing(hpm, d, ast.For)
+    star_ok = False
+    if sloop is not None:
+        it_ = HS.resolve(sloop.iter, HS.cfg.node(sloop))
+        txt_ = norm(it_)
+        kpe = f"{kl}[{own[0]}][{own[1]}][{own[2]}]"
+        star_ok = any(x in txt_ for x in (f"np.round({kpv}.star * self.div)", f"np.rint({kpv}.star * self.div)", f"np.round({kpe}.star * self.div)",
+                                          f"np.rint({kpe}.star * self.div)")) and "% self.div" in txt_ and "int" in txt_ \
+            and norm(sloop.target) in (T, ) + tuple([T] if T else [])
+    r1.check(star_ok, "images are the star of the point, in integer grid coordinates folded onto the grid", h, sloop or d,
              "symmetry images are no longer round(KP.star · div) mod div", stmt="star")
+    # every grid point (x, y, z) gets its turn
+    anchor = d
+    own_in_g = own
+    if h is not g:
+        calls_h = [c for c in ast.walk(g.node) if isinstance(c, ast.Call) and (norm(c.func).endswith("." + h.name) or norm(c.func) == h.name)]
+        r1.expect(len(calls_h) == 1, "helper call located", g, g.node, f"get_K_list: single call of {h.name} not found")
+        if len(calls_h) != 1:
+            return
+        anchor = calls_h[0]
+        PS2 = Sem(idx, h, caller=(GSem, calls_h[0]))
+        _, own_in_g = (lambda r_: (None, [norm(r_.value.value.slice), norm(r_.value.slice), norm(r_.slice)]) if isinstance(r_, ast.Subscript) and isinstance(r_.value, ast.Subscript) and
+                       isinstance(r_.value.value, ast.Subscript) else (None, None))(PS2.simplify(PS2.resolve(ast.Name(id=kpv, ctx=ast.Load()), PS2.cfg.node(d)), 0))
+    lv = {}
+    for l in enclosing_all(pm, anchor, ast.For) if h is g else enclosing_all(pm, anchor, ast.For):
+        m_ = pmatch(GSem.resolve(l.iter, cfg.node(l)), "range(self.div[AX])", {"AX"})
+        if m_ and isinstance(l.target, ast.Name):
+            lv[int(m_[0][1]["AX"])] = l.target.id
+    r1.check(sorted(lv) == [0, 1, 2] and own_in_g == [lv[0], lv[1], lv[2]], "every grid point (x, y, z), x < div[0], y < div[1], z < div[2], is visited as absorbing point", g, anchor,
+             f"the symmetry reduction does not visit every grid point K[x][y][z] over range(div[0]) × range(div[1]) × range(div[2]) (loops {lv}, point {own_in_g})")
+    kl_g = kl
+    if h is not g:
+        S3 = Sem(idx, h, caller=(GSem, calls_h[0]))
+        b3 = S3._caller[2] if S3._caller else {}
+        kl_g = norm(b3[kl]) if kl in b3 else kl
     ctor = [c for c in ast.walk(g.node) if isinstance(c, ast.Call) and call_name(c) == "KpointBZparallel"]
     okc = False
     if len(ctor) == 1:
         fv = kwarg(ctor[0], "factor")
-        fv = du.resolve_local(fv, du.node_of_expr(ctor[0])) if fv is not None else None
+        fv = GSem.resolve(fv, du.node_of_expr(ctor[0])) if fv is not None else None
         okf = fv is not None and bool(pmatch(fv, "1.0 / np.prod(self.div)") or pmatch(fv, "1 / np.prod(self.div)") or pmatch(fv, "1.0 / self.div.prod()"))
         comp = [n for n in ast.walk(g.node) if isinstance(n, ast.ListComp) and any(x is ctor[0] for x in ast.walk(n))]
         gens = {}
         for n in comp:
             for ge in n.generators:
-                m_ = pmatch(ge.iter, "range(self.div[AX])", {"AX"})
-                if m_ and m_[0][0] is ge.iter and isinstance(ge.target, ast.Name) and not ge.ifs:
+                m_ = pmatch(GSem.resolve(ge.iter, du.node_of_expr(ctor[0])), "range(self.div[AX])", {"AX"})
+                if m_ and isinstance(ge.target, ast.Name) and not ge.ifs:
                     gens[int(m_[0][1]["AX"])] = ge.target.id
         kk = kwarg(ctor[0], "K")
         okK = sorted(gens) == [0, 1, 2] and kk is not None and bool(pmatch(kk, f"np.array([{gens.get(0)}, {gens.get(1)}, {gens.get(2)}]) * DK", {"DK"}))
         okc = okf and okK
     r1.check(okc, "initial grid: prod(div) points (x, y, z)·dK, each of weight 1/prod(div)", g, ctor[0] if ctor else g.node,
              "the initial grid is no longer prod(div) points of weight 1/prod(div)", stmt="initial weights")
-    flat = [s_ for s_ in stmts(g.node) if isinstance(s_, ast.Assign) and pmatch(s_.value, f"[K_ for A_ in {kl} for B_ in A_ for K_ in B_ if K_ is not None]", {"K_", "A_", "B_"})
-            and pmatch(s_.value, f"[K_ for A_ in {kl} for B_ in A_ for K_ in B_ if K_ is not None]", {"K_", "A_", "B_"})[0][0] is s_.value]
+    flat = [s_ for s_ in stmts(g.node) if isinstance(s_, ast.Assign) and pmatch(s_.value, f"[K_ for A_ in {kl_g} for B_ in A_ for K_ in B_ if K_ is not None]", {"K_", "A_", "B_"})
+            and pmatch(s_.value, f"[K_ for A_ in {kl_g} for B_ in A_ for K_ in B_ if K_ is not None]", {"K_", "A_", "B_"})[0][0] is s_.value]
     rets1 = [s_ for s_ in stmts(g.node) if isinstance(s_, ast.Return)]
     r1.check(len(flat) == 1 and len(rets1) == 1 and norm(rets1[0].value) == norm(flat[0].targets[0]) and cfg.dominates(cfg.node(flat[0]), cfg.node(rets1[0])),
              "the returned list keeps exactly the points that were not dropped", g, flat[0] if flat else g.node,
@@ -198,33 +282,66 @@ def run(ctx) -> None:
 
     # ---------------------------------------------------------------- R06.2
     r2 = ctx.rule("R06.2", "subdivision conserves weight and zeroes the parent", min_instances=2)
-    _divide_rule(r2, idx.function(KP, "KpointBZparallel.divide"), "KpointBZparallel")
-    _divide_rule(r2, idx.function(KT, "KpointBZtetra.divide"), "KpointBZtetra")
+    _divide_rule(r2, idx.function(KP, "KpointBZparallel.divide"), "KpointBZparallel", idx)
+    _divide_rule(r2, idx.function(KT, "KpointBZtetra.divide"), "KpointBZtetra", idx)
     td = idx.function(KT, "KpointBZtetra.divide")
-    T = Frag(td)
-    nd = "ndiv"
-    ok_t = T.all(f"v0 = self.vertices[edge[0]]", f"dv = (self.vertices[edge[1]] - v0) / {nd}") and \
-        bool(T.find("np.array([self.vertices[edge_comp[0]], self.vertices[edge_comp[1]], v0 + i * dv, v0 + (i + 1) * dv])")) and \
-        T.all("edge = EDGES[i_edge]", "edge_comp = EDGES_COMPLEMENT[i_edge]")
-    if ok_t:
-        tl = [l for l in stmts(td.node) if isinstance(l, ast.For) and isinstance(l.target, ast.Name) and l.target.id == T.binding.get("i")]
-        ok_t = len(tl) == 1 and norm(tl[0].iter) == f"range({nd})"
-    r2.check(ok_t, "tetrahedron children: the split edge is cut into ndiv consecutive segments, the opposite edge is shared", td, td.node,
+    TS = Sem(idx, td)
+    TS.subst_consts = False
+    tc = [c_ for c_ in ast.walk(td.node) if isinstance(c_, ast.Call) and call_name(c_) == "KpointBZtetra"]
+    ok_t = False
+    if len(tc) == 1 and kwarg(tc[0], "vertices") is not None:
+        at_t = TS.cfg.node(enclosing(TS.pm, tc[0], ast.stmt))
+        vres = TS.resolve(kwarg(tc[0], "vertices"), at_t)
+        m_ = pmatch(vres, "np.array([self.vertices[EC_[0]], self.vertices[EC_[1]], V0_ + I_ * DV_, V0_ + (I_ + 1) * DV_])", {"EC_", "V0_", "I_", "DV_"})
+        if m_ and m_[0][0] is vres:
+            bb = m_[0][1]
+            ndp = td.params[1]
+            e0 = pmatch(ast.parse(bb["V0_"], mode="eval").body, "self.vertices[E_[0]]", {"E_"})
+            if e0:
+                E_ = e0[0][1]["E_"]
+                dv_ok = bb["DV_"] in (f"(self.vertices[{E_}[1]] - self.vertices[{E_}[0]]) / {ndp}",) or \
+                    TS.rnorm(ast.parse(bb["DV_"], mode="eval").body, at_t) == f"(self.vertices[{E_}[1]] - self.vertices[{E_}[0]]) / {TS.rnorm(ast.Name(id=ndp, ctx=ast.Load()), at_t)}"
+                q1 = pmatch(ast.parse(E_, mode="eval").body, "EDGES[Q_]", {"Q_"})
+                q2 = pmatch(ast.parse(bb["EC_"], mode="eval").body, "EDGES_COMPLEMENT[Q_]", {"Q_"})
+                its = _iter_space(TS, tc[0])
+                ok_t = dv_ok and bool(q1 and q2) and q1[0][1]["Q_"] == q2[0][1]["Q_"] and len(its) == 1 and its[0][0] == bb["I_"] and norm(its[0][1]) == f"range({ndp})"
+    r2.check(ok_t, "tetrahedron children: the split edge is cut into ndiv consecutive segments, the opposite edge is shared", td, tc[0] if tc else td.node,
              "the sub-tetrahedra no longer tile the parent (split edge v0+i·dv … v0+(i+1)·dv with dv = edge/ndiv, opposite edge kept)",
              stmt="tetra tiling")
     pd = idx.function(KP, "KpointBZparallel.divide")
-    P = Frag(pd)
-    ok_p = P.all(f"dK_adpt = self.dK / {nd}", "adpt_shift = (-self.dK + dK_adpt) / 2.0", "K0 = self.K") and \
-        bool(P.find("KpointBZparallel(K=K0 + adpt_shift + dK_adpt * np.array([x, y, z]), dK=dK_adpt, NKFFT=ANY, factor=ANY, pointgroup=ANY, refinement_level=ANY)"))
-    if ok_p:
-        order = []
-        for l in stmts(pd.node):
-            if isinstance(l, ast.For) and isinstance(l.target, ast.Name) and l.target.id in (P.binding.get("x"), P.binding.get("y"), P.binding.get("z")):
-                m_ = pmatch(l.iter, f"range({nd}[AX])", {"AX"})
-                if m_ and m_[0][0] is l.iter:
-                    order.append((l.target.id, int(m_[0][1]["AX"])))
-        ok_p = sorted(order) == sorted([(P.binding["x"], 0), (P.binding["y"], 1), (P.binding["z"], 2)])
-    r2.check(ok_p, "parallelepiped children tile the parent cell (size dK/ndiv, centred sub-cells, index i along direction i)", pd, pd.node,
+    PS = Sem(idx, pd)
+    pc = [c_ for c_ in ast.walk(pd.node) if isinstance(c_, ast.Call) and call_name(c_) == "KpointBZparallel"]
+    ok_p = False
+    if len(pc) == 1 and kwarg(pc[0], "K") is not None and kwarg(pc[0], "dK") is not None:
+        from ..algebra import Rat, to_rat
+        at_p = PS.cfg.node(enclosing(PS.pm, pc[0], ast.stmt))
+        ndp = pd.params[1]
+        its = _iter_space(PS, pc[0])
+        ivec = None
+        if len(its) == 3 and [norm(it) for _, it, _ in its] == [f"range({ndp}[{k}])" for k in range(3)]:
+            ivec = f"np.array([{its[0][0]}, {its[1][0]}, {its[2][0]}])"
+        elif len(its) == 1 and norm(its[0][1]) == f"np.ndindex(*{ndp})":
+            ivec = f"np.array({its[0][0]})"
+
+        def envp(x):
+            t_ = norm(x)
+            if t_ == "self.K":
+                return Rat.sym("K")
+            if t_ == "self.dK":
+                return Rat.sym("d")
+            if t_ == ndp:
+                return Rat.sym("n")
+            if ivec is not None and t_ == ivec:
+                return Rat.sym("i")
+            return None
+        try:
+            kk = to_rat(PS.resolve(kwarg(pc[0], "K"), at_p), envp)
+            dd = to_rat(PS.resolve(kwarg(pc[0], "dK"), at_p), envp)
+            K_, d_, n_, i_ = Rat.sym("K"), Rat.sym("d"), Rat.sym("n"), Rat.sym("i")
+            ok_p = ivec is not None and dd.equals(d_ / n_) and kk.equals(K_ + (d_ / n_ - d_) / Rat.const(2) + (d_ / n_) * i_)
+        except AnalysisError:
+            ok_p = False
+    r2.check(ok_p, "parallelepiped children tile the parent cell (size dK/ndiv, centres K − dK/2 + (i + ½) dK/ndiv, index i along direction i)", pd, pc[0] if pc else pd.node,
              "the sub-cells of a refined K-point no longer tile the parent cell", stmt="parallelepiped tiling")
 
     # ---------------------------------------------------------------- R06.3
@@ -284,7 +401,7 @@ def run(ctx) -> None:
     r4.check(all(kwc.get(x) == f"self.{x}" for x in ("factor", "vertices", "K", "basis", "NKFFT")), "copy() carries weight, vertices, position, basis and FFT grid", cp,
              cc[0] if cc else cp.node, f"KpointBZtetra.copy does not carry over every field unchanged ({kwc})", stmt="copy fields")
     for name in ("split_tetra_size", "split_tetra_volume"):
-        f = idx.function(GT, "GridTetra." + name)
+        f = inline_private_helpers(idx, idx.function(GT, "GridTetra." + name))
         S = Frag(f)
         ifm = S.find("if ANY:\n    klist += K.divide(ndiv=2, refine=False)\nelse:\n    klist.append(K)") or \
             S.find("if ANY:\n    klist.extend(K.divide(ndiv=2, refine=False))\nelse:\n    klist.append(K)")
